@@ -164,6 +164,17 @@ func genBase(r *rng.R) Schema {
 		}
 		s.Tables = append(s.Tables, t)
 	}
+	// objects the community driver does not see: a view over a table (makes a rebuild of that table
+	// fail at RENAME), a trigger that would delete rows of another table if DROP TABLE fired it
+	if r.Chance(1, 12) {
+		t := s.Tables[r.Intn(len(s.Tables))]
+		s.Extra = append(s.Extra, "CREATE VIEW "+qi("v_"+t.Name)+" AS SELECT * FROM "+qi(t.Name))
+	}
+	if r.Chance(1, 8) && len(s.Tables) > 1 {
+		i := r.Intn(len(s.Tables))
+		j := (i + 1 + r.Intn(len(s.Tables)-1)) % len(s.Tables)
+		s.Extra = append(s.Extra, "CREATE TRIGGER "+qi("trg_"+s.Tables[i].Name)+" AFTER DELETE ON "+qi(s.Tables[i].Name)+" BEGIN DELETE FROM "+qi(s.Tables[j].Name)+"; END")
+	}
 	return s
 }
 
